@@ -418,6 +418,65 @@ func (c *ctx) countCalls(p pre, o Op) int {
 	return rec.NumMutating()
 }
 
+// candidate operations tried from every generated pre-state
+var candidates = []Op{
+	{Kind: "put", Name: "a", Value: "new"}, {Kind: "put", Name: "a", Value: ""}, {Kind: "put", Name: "b", Value: "bee"},
+	{Kind: "activate", Name: "a", Ver: 1}, {Kind: "activate", Name: "a", Ver: 2}, {Kind: "activate", Name: "a", Ver: 3},
+	{Kind: "delver", Name: "a", Ver: 1}, {Kind: "delver", Name: "a", Ver: 2}, {Kind: "delver", Name: "a", Ver: 3},
+	{Kind: "delete", Name: "a"}, {Kind: "delete", Name: "b"},
+}
+
+// genPres enumerates pre-states reachable within depth by the candidate operations (distinct model states).
+func genPres(depth int) []pre {
+	seen := map[string]bool{model.NewKV().Key(): true}
+	out := []pre{{name: "gen:empty"}}
+	frontier := []pre{{name: "gen:empty"}}
+	for l := 0; l < depth; l++ {
+		var next []pre
+		for _, p := range frontier {
+			for _, o := range candidates {
+				m := model.NewKV()
+				for _, x := range p.ops {
+					applyModel(m, x)
+				}
+				before := m.Key()
+				applyModel(m, o)
+				if m.Key() == before || seen[m.Key()] {
+					continue
+				}
+				seen[m.Key()] = true
+				ops := append(append([]Op{}, p.ops...), o)
+				var nm []string
+				for _, x := range ops {
+					nm = append(nm, x.String())
+				}
+				np := pre{name: "gen:" + strings.Join(nm, ","), ops: ops}
+				out = append(out, np)
+				next = append(next, np)
+			}
+		}
+		frontier = next
+	}
+	return out
+}
+
+// effectiveOps returns the candidate operations that change the given pre-state.
+func effectiveOps(p pre) []Op {
+	var out []Op
+	for _, o := range candidates {
+		m := model.NewKV()
+		for _, x := range p.ops {
+			applyModel(m, x)
+		}
+		before := m.Key()
+		applyModel(m, o)
+		if m.Key() != before {
+			out = append(out, o)
+		}
+	}
+	return out
+}
+
 func TestCheck(t *testing.T) {
 	env := report.FromEnv()
 	rep := env.New("C04")
@@ -453,6 +512,22 @@ func TestCheck(t *testing.T) {
 					c.faults(p, o, &o2)
 				}
 			}
+		}
+	}
+	if env.Thorough() {
+		deep := rep.Add(&report.Section{Name: "generated-pre-states-depth3", Engine: "fsx", Exhaustive: true, Extra: map[string]int64{},
+			Rule: "every database state reachable within three operations × every operation that changes it: all crash variants and all single faults (as in the first two sections); non-trivial = crash variants recovering to the post state + fault runs in which the call failed"})
+		c = &ctx{rep: rep, sec: deep, base: base}
+		for _, p := range genPres(3) {
+			if env.Expired() {
+				deep.Exhaustive = false
+				break
+			}
+			for _, o := range effectiveOps(p) {
+				c.crashes(p, o)
+				c.faults(p, o, nil)
+			}
+			deep.Extra["pre_states"]++
 		}
 	}
 	straceSection(t, rep, base)
